@@ -57,8 +57,7 @@ def label_shift(comp: dict, labels) -> float:
 
 
 def correct_shifts(p: Pep):
-    """reference shift per residue / terminus / labile group for a correct condensation"""
-    n = len(p.seq)
+    """reference shift per residue / terminus / labile group / unknown group / interval for a correct condensation"""
     res = []
     for i, aa in enumerate(p.seq):
         s = sum(m.mass() for m in p.res.get(i, []))
@@ -68,47 +67,18 @@ def correct_shifts(p: Pep):
                     s += sum(m.mass() for m in r.mods)
         s += label_shift(chem.RESIDUES[aa], p.isotope)
         res.append(s)
-    nterm = sum(m.mass() for m in p.nterm)
-    cterm = sum(m.mass() for m in p.cterm)
+    nterm = sum(m.mass() for m in p.nterm) + label_shift({'H': 1}, p.isotope)
+    cterm = sum(m.mass() for m in p.cterm) + label_shift({'O': 1, 'H': 1}, p.isotope)
+    for r in p.static:
+        for t in r.targets:
+            if t == 'N-Term':
+                nterm += sum(m.mass() for m in r.mods)
+            elif t == 'C-Term':
+                cterm += sum(m.mass() for m in r.mods)
     labile = sum(m.mass() for m in p.labile)
-    return res, nterm, cterm, labile
-
-
-def k10_shifts(p: Pep):
-    """exact emulation of K10: every one-residue piece inherits charge/adducts, unknown-position and interval
-    modifications, terminal static rules and the label atoms of its own water"""
-    res = []
-    for i, aa in enumerate(p.seq):
-        s = sum(m.mass() for m in p.res.get(i, []))
-        for r in p.static:
-            for t in r.targets:
-                if t == aa or t in ('N-Term', 'C-Term'):
-                    s += sum(m.mass() for m in r.mods)
-        s += sum(m.mass() for m in p.unknown)
-        for iv in p.intervals:
-            if iv.start <= i < iv.end:
-                s += sum(m.mass() for m in iv.mods)
-        s += label_shift(chem.add(chem.RESIDUES[aa], chem.WATER), p.isotope)
-        if p.isotope:
-            # with labels the library takes the composition path: charge carriers / adduct atoms are labelled too
-            lm = rp.label_map(p.isotope)
-            if p.adducts:
-                for count, sym, q in rp.parse_adducts(p.adducts):
-                    s += count * atoms.ELECTRON if sym == 'e' else count * (atoms.mono(lm.get(sym, sym)) - q * atoms.ELECTRON)
-            elif p.charge:
-                s += p.charge * (atoms.mono(lm.get('H', 'H')) - atoms.ELECTRON)
-        elif p.adducts:
-            s += rp.adduct_mass(p.adducts, True, emulate_k2=True)
-        elif p.charge:
-            s += p.charge * atoms.PROTON
-        res.append(s)
-    return res
-
-
-def k10_features(p: Pep) -> bool:
-    lm = rp.label_map(p.isotope) if p.isotope else {}
-    return bool(p.charge or p.adducts or p.unknown or p.intervals or 'H' in lm or 'O' in lm or
-                any(t in ('N-Term', 'C-Term') for r in p.static for t in r.targets))
+    unknown = sum(m.mass() for m in p.unknown)
+    intervals = sorted((iv.start, iv.end, iv.ambiguous, round(sum(m.mass() for m in iv.mods), 4)) for iv in p.intervals)
+    return res, nterm, cterm, labile, unknown, intervals
 
 
 def run_case(ctx, st, pt, p: Pep, include_plus, precision):
@@ -140,12 +110,16 @@ def run_case(ctx, st, pt, p: Pep, include_plus, precision):
         ctx.violation('residues-changed', info)
         return
     all_vals = []
+    n_shift_copies = 0          # a shift written with ^n counts n times
     for key in ('labile', 'static', 'isotope', 'unknown', 'nterm', 'cterm'):
         all_vals += [v for v, _m in (o[key] or [])]
+        n_shift_copies += sum(_m for _v, _m in (o[key] or []))
     for ms in (o['internal'] or {}).values():
         all_vals += [v for v, _m in ms]
+        n_shift_copies += sum(_m for _v, _m in ms)
     for iv in (o['intervals'] or []):
         all_vals += [v for v, _m in (iv[3] or [])]
+        n_shift_copies += sum(_m for _v, _m in (iv[3] or []))
     ctx.decided()
     if any(not isinstance(v, (int, float)) for v in all_vals):
         ctx.violation('non-numeric-modification-in-output', dict(info, values=[repr(v) for v in all_vals][:8]))
@@ -159,28 +133,33 @@ def run_case(ctx, st, pt, p: Pep, include_plus, precision):
     # per-site shifts
     tol = 10 ** (-precision) + 1e-9
     named = sum(table_copies(m) for m in rp.placed_mods(p, 'p'))
-    res_c, nterm_c, cterm_c, labile_c = correct_shifts(p)
+    res_c, nterm_c, cterm_c, labile_c, unknown_c, intervals_c = correct_shifts(p)
     obs_res = [sum(v * mult for v, mult in (o['internal'] or {}).get(i, [])) for i in range(len(p.seq))]
     obs_n = sum(v * mult for v, mult in (o['nterm'] or []))
     obs_c = sum(v * mult for v, mult in (o['cterm'] or []))
     obs_l = sum(v * mult for v, mult in (o['labile'] or []))
+    obs_u = sum(v * mult for v, mult in (o['unknown'] or []))
+    obs_iv = sorted((iv[0], iv[1], iv[2], round(sum(v * mult for v, mult in (iv[3] or [])), 4))
+                    for iv in (o['intervals'] or []))
     # vocabulary masses are tabulated (6 decimals); with isotope labels the library resolves named entries through
     # their compositions instead, which may differ from the table by up to the C03 bound (1e-4) per copy
     per_copy = 1e-4 if p.isotope else 1e-6
     site_tol = tol + per_copy * max(1, named)
     wrong_sites = [i for i in range(len(p.seq)) if abs(obs_res[i] - res_c[i]) > site_tol]
     term_ok = abs(obs_n - nterm_c) <= site_tol and abs(obs_c - cterm_c) <= site_tol and abs(obs_l - labile_c) <= site_tol
+    other_ok = abs(obs_u - unknown_c) <= site_tol * max(1, sum(m.mult for m in p.unknown)) and \
+        [x[:3] for x in obs_iv] == [x[:3] for x in intervals_c] and \
+        all(abs(a[3] - b[3]) <= site_tol * max(1, sum(m.mult for iv in p.intervals for m in iv.mods)) + 1e-4
+            for a, b in zip(obs_iv, intervals_c)) and \
+        o['charge'] == p.charge and (o['adducts'] or None) == ([(p.adducts, 1)] if p.adducts else None)
     kf = None
-    if wrong_sites or not term_ok:
-        emu = k10_shifts(p)
-        if k10_features(p) and term_ok and all(abs(obs_res[i] - emu[i]) <= site_tol for i in range(len(p.seq))):
-            kf = 'K10'
     ctx.decided()
-    if wrong_sites or not term_ok:
+    if wrong_sites or not term_ok or not other_ok:
         ctx.violation('shift-differs-from-what-sat-on-the-site',
                       dict(info, wrong_residues=wrong_sites[:6], observed=[round(x, 6) for x in obs_res][:12],
                            expected=[round(x, 6) for x in res_c][:12], nterm=[obs_n, nterm_c], cterm=[obs_c, cterm_c],
-                           labile=[obs_l, labile_c]), kf=kf)
+                           labile=[obs_l, labile_c], unknown=[obs_u, unknown_c], intervals=[obs_iv, intervals_c],
+                           charge=[o['charge'], p.charge], adducts=[o['adducts'], p.adducts]), kf=kf)
     # total mass relation (library mass on both sides)
     try:
         m_in = pt.mass(text)
@@ -190,8 +169,31 @@ def run_case(ctx, st, pt, p: Pep, include_plus, precision):
         m_in = m_out = None
     if m_in is not None:
         ctx.decided()
-        n_written = len(all_vals)
-        if abs(m_in - m_out) > 10 ** (-precision) * max(1, n_written) + per_copy * named + 1e-9:
+        n_written = max(1, n_shift_copies)
+        mtol = 10 ** (-precision) * n_written + per_copy * named + 1e-9
+        if p.isotope and p.charge:
+            # labelled original: charge carriers are H - e (composition path); output: CODATA proton (1.5e-8 apart)
+            mtol += 2e-8 * abs(p.charge)
+        if abs(m_in - m_out) > mtol:
+            kf = None
+            # two mechanisms outside the function itself can separate the two masses; both are emulated exactly
+            expect = 0.0
+            lm = rp.label_map(p.isotope) if p.isotope else {}
+            if p.isotope and (p.charge or p.adducts):
+                # K10 (narrowed): mass() of the labelled original also labels the charge carriers / adduct atoms, the
+                # condensed string has no label
+                if p.adducts:
+                    for count, sym, q in rp.parse_adducts(p.adducts):
+                        if sym in lm:
+                            expect -= count * (atoms.mono(lm[sym]) - atoms.mono(sym))
+                    # K2: labelled input = composition path (count*q electrons), output = fast path (q electrons)
+                    expect += rp.adduct_mass(p.adducts, True, emulate_k2=True) - rp.adduct_mass(p.adducts, True)
+                elif 'H' in lm:
+                    expect -= p.charge * (atoms.mono(lm['H']) - atoms.mono('H'))
+            if expect != 0.0 and abs((m_out - m_in) - expect) <= mtol + 1e-7:
+                label_part = p.isotope and any(sym in lm for _c, sym, _q in (rp.parse_adducts(p.adducts) if p.adducts
+                                                                           else [(p.charge, 'H', 1)]))
+                kf = 'K10' if label_part else 'K2'
             ctx.violation('mass-not-preserved', dict(info, mass_input=m_in, mass_output=m_out,
                                                      difference=m_out - m_in, shifts_written=n_written), kf=kf)
     ctx.sig((p.features(), sorted(p.isotope), include_plus, precision), len(p.res) + bool(p.nterm) + bool(p.cterm) >= 2
@@ -218,9 +220,12 @@ def run(ctx):
 
 def reproduce(kf_id):
     import peptacular as pt
+    if kf_id == 'K2':
+        s = '<13C>PEPTIDE/2[+2Na+]'
+        return abs(pt.mass(pt.condense_to_mass_mods(s)) - pt.mass(s)) > 1e-4
     if kf_id == 'K10':
-        return pt.condense_to_mass_mods('[Oxidation]?PEP') != '[15.994915]?PEP' and \
-            abs(pt.mass(pt.condense_to_mass_mods('[Oxidation]?PEP')) - pt.mass('[Oxidation]?PEP')) > 1e-3
+        s = '<D>PEPTIDE/2'
+        return abs(pt.mass(pt.condense_to_mass_mods(s)) - pt.mass(s)) > 1e-4
     return None
 
 
